@@ -47,6 +47,7 @@ class Contract:
     line: int = 0
     is_lemma: bool = False
     quick_restricted: bool = False
+    deductive: bool = True        # False: the contract is only checked natively (bounded), its body is not executed symbolically
 
 
 def const_eval(node, mi):
@@ -131,6 +132,8 @@ class Registry:
                         c.self_ann = val
                     elif n == "also":
                         c.abstract_for = list(val)
+                    elif n == "deductive":
+                        c.deductive = bool(val)
                 elif isinstance(b, ast.FunctionDef):
                     cprops = props
                     known = []
